@@ -57,8 +57,8 @@ func NewNormalIWishartDistribution(kappa, nu Scalar, mu Vector, lambda Matrix) (
 
   result := NormalIWishartDistribution{
     InverseWishartDistribution: *iw,
-    Kappa : kappa,
-    Mu    : mu,
+    Kappa : kappa.CloneScalar(),
+    Mu    : mu   .CloneVector(),
     r1    : NullScalar(t),
     r2    : NullScalar(t),
     sigmap: NullDenseMatrix(t, n, n) }
